@@ -18,10 +18,10 @@ import (
 // deterministically; every worker generates, builds and runs its share.
 
 type genCase struct {
-	Origin string           `json:"origin"`
-	Spec   *gram.Spec       `json:"spec"`
-	Tags   gen.Tags         `json:"tags,omitempty"`
-	Shape  gen.ActionShape  `json:"shape"`
+	Origin string          `json:"origin"`
+	Spec   *gram.Spec      `json:"spec"`
+	Tags   gen.Tags        `json:"tags,omitempty"`
+	Shape  gen.ActionShape `json:"shape"`
 }
 
 func genDepth(w *Worker) int {
@@ -130,10 +130,25 @@ type val struct {
 
 // evalAction mirrors gen.ActionFor.
 func evalAction(r int, rule gram.Rule, tags gen.Tags, shape gen.ActionShape, args []val) val {
-	if shape == gen.NoAction {
+	if shape == gen.NoAction || (shape == gen.Mixed && r%2 == 0) {
 		return val{}
 	}
 	lt := tags[rule.L]
+	if shape == gen.PlainCopy {
+		if len(rule.R) == 0 || lt == "" || tags[rule.R[0]] == "" {
+			return val{}
+		}
+		a := args[0]
+		switch {
+		case lt == "s" && tags[rule.R[0]] == "s":
+			return val{S: a.S}
+		case lt == "n" && tags[rule.R[0]] == "n":
+			return val{N: a.N}
+		case lt == "s":
+			return val{S: rt.SN(a.N)}
+		}
+		return val{N: rt.NS(a.S)}
+	}
 	var ss []string
 	var ns []int
 	for i, x := range rule.R {
@@ -392,7 +407,13 @@ func genBatch(w *Worker, id string, cases []*genCase, name string) {
 		}
 		o.vw = vw
 		o.tbl = g.LR0().Table()
-		o.inputs = allInputs(d, genDepth(w))
+		// all strings up to the tier's depth; grammars with large alphabets
+		// (families) get a smaller depth so that the input set stays below ~2000
+		k := genDepth(w)
+		for k > 2 && pow(len(d.Chars)+1, k) > 2000 {
+			k--
+		}
+		o.inputs = allInputs(d, k)
 		for vi, v := range variants {
 			pkg := fmt.Sprintf("p%d_%d", i, vi)
 			o.items[v] = b.Add(pkg, v, d)
@@ -548,6 +569,9 @@ func genJudge(w *Worker, id string, o *obs, variants []string) {
 			if v == gen.TS {
 				p = tsExpect(p)
 			}
+			if o.d.Shape == gen.PlainCopy {
+				p.Reds = nil
+			}
 			if p.Class == r.Class && (p.Class == "loop" || p.Class == "crash" || (p.Fetches == r.Fetches && sameReds(p.Reds, r.Reds, true) && (p.Class != "accept" || (p.N == r.N && p.S == r.S)))) {
 				w.Count("gen_traces_validated", 1)
 			} else {
@@ -581,7 +605,13 @@ func genJudge(w *Worker, id string, o *obs, variants []string) {
 					}
 				}
 			case "C07":
-				if r.Class == "accept" {
+				if r.Class == "accept" && o.d.Shape == gen.PlainCopy {
+					// these actions do not record reductions (so that many rules share one action text):
+					// the expected value comes from the model's derivation (validated by C01)
+					if p.Class == "accept" && (p.N != r.N || p.S != r.S) {
+						bad("wrong-value", v, in, fmt.Sprintf("the parser returns n=%d s=%q, evaluating the actions bottom-up over the derivation gives n=%d s=%q", r.N, r.S, p.N, p.S), map[string]interface{}{"tags": o.d.Tags, "shape": o.d.Shape})
+					}
+				} else if r.Class == "accept" {
 					want, msg := o.evalDerivation(in, r.Reds, true)
 					if msg != "" {
 						w.Count("c07_skipped_invalid_derivation", 1)
@@ -661,4 +691,12 @@ func c08GenJudge(w *Worker, o *obs, variants []string, bad func(kind, variant, i
 			}
 		}
 	}
+}
+
+func pow(b, e int) int {
+	r := 1
+	for i := 0; i < e; i++ {
+		r *= b
+	}
+	return r
 }
